@@ -41,7 +41,25 @@ Progs ==
     P1(<<SWhile(EBool(TRUE), <<[k |-> "raw", ps |-> <<"// spin">>]>>)>>),
     P1(<<SFor("", "num", <<Num(10000)>>, <<[k |-> "raw", ps |-> <<"// delay">>]>>), Pr(<<Num(9)>>)>>) }
 
-FamCases == {MkCase("FamStop", "stop", p) : p \in Progs}
+\* programs with handlers: the flag may also go up while a handler runs (at any of its steps); a handler with a
+\* loop, one that calls a function, one that never ends
+Cnt == EVar("count", T_num)
+HMain == <<SInfer("count", Num(0)), Pr(<<Num(0), Cnt>>)>>
+HKey == Handler("key", <<Param("k", T_str)>>, <<SAsg(Cnt, EBin("+", Cnt, Num(1))), Pr(<<EVar("k", T_str), Cnt>>),
+                                                 SFor("i", "num", <<Num(2)>>, <<Pr(<<EVar("i", T_num)>>)>>)>>)
+HDown == Handler("down", <<Param("x", T_num), Param("_", T_num)>>, <<SCall(ECallU("bump", Sig(<<T_num>>, <<>>, T_none), <<EVar("x", T_num)>>)), Pr(<<Cnt>>)>>)
+HAnim == Handler("animate", <<>>, <<SWhile(EBool(TRUE), <<SAsg(Cnt, EBin("+", Cnt, Num(1))), SIf(<<EBin("==", Cnt, Num(3))>>, <<<<Pr(<<Cnt>>)>>>>, <<>>)>>)>>)
+Bump == FuncDef("bump", <<Param("d", T_num)>>, <<>>, T_none, <<SAsg(Cnt, EBin("+", Cnt, EVar("d", T_num))), Pr(<<Num(7), Cnt>>)>>)
+HProg(hs) == [Program(HMain, <<Bump>>, hs) EXCEPT !.fl = TRUE]
+EvKey(c) == [ev |-> "key", args |-> <<VStr(<<c>>)>>]
+EvDown == [ev |-> "down", args |-> <<I(5), I(6)>>]
+EvAnim == [ev |-> "animate", args |-> <<I(16)>>]
+HCases ==
+  { [MkCase("FamStop", "stop", HProg(<<HKey, HDown>>)) EXCEPT !.events = <<EvKey(97), EvDown, EvKey(98)>>],
+    [MkCase("FamStop", "stop", HProg(<<HKey>>)) EXCEPT !.events = <<EvKey(97), EvDown, EvKey(98)>>],
+    [MkCase("FamStop", "stop", HProg(<<HDown, HKey, HAnim>>)) EXCEPT !.events = <<EvDown, EvAnim, EvKey(97)>>] }
+
+FamCases == {MkCase("FamStop", "stop", p) : p \in Progs} \cup HCases
 FamInit == InitWith(FamCases)
 Bounded == st.ns < MaxSteps
 \* emit also the states at which a non-terminating run is cut
